@@ -248,16 +248,17 @@ class Compiled:
         self.items = items
         self.res = [item_re(it) for it in items]
         self.groups = {}
+        self.groups_ok = True  # groups other than 0 are only available when every capture group is a top-level item
         for i, (op, av) in enumerate(items):
             if op is sre_c.SUBPATTERN and av[0] is not None:
                 self.groups[av[0]] = i
                 for op2, _ in _walk(av[3]):
                     if op2 is sre_c.SUBPATTERN and _[0] is not None:
-                        raise Unsupported("nested capture group")
+                        self.groups_ok = False
             else:
                 for op2, av2 in _walk([(op, av)]):
                     if op2 is sre_c.SUBPATTERN and av2[0] is not None:
-                        raise Unsupported("capture group below top level")
+                        self.groups_ok = False
         self.whole = seq_re(items)
         # trailing greedy repetition over a single-character class: maximal
         self.tail_class = None
@@ -334,8 +335,9 @@ def do_match(ex, pattern, s, line, mode="match", flags=0):
         ex.assume(nomore)
     groups = [SStr(whole)]
     ng = max(cp.groups) if cp.groups else 0
-    for g in range(1, ng + 1):
-        groups.append(SStr(pieces[cp.groups[g]]))
+    if cp.groups_ok:
+        for g in range(1, ng + 1):
+            groups.append(SStr(pieces[cp.groups[g]]))
     m = ReMatch(groups, SStr(whole))
     m.pieces, m.rest = pieces, rest
     return m
@@ -352,6 +354,8 @@ def match_method(ex, m, name, args, kwargs, line):
         idx = args[0] if args else 0
         if not isinstance(idx, int):
             raise Unsupported("group(name)")
+        if idx >= len(m.groups):
+            raise Unsupported("capture group below top level")
         return m.groups[idx]
     if name == "groups":
         return tuple(m.groups[1:])
